@@ -96,6 +96,13 @@ check('C20', 'exploration', 'reference-formula monitor: every wntr.metrics value
       'power/energy/cost, annual_network_cost and annual_ghg_emissions against the documented tables.',
       'Formulas transcribed from the docstrings; global_efficiency is a percentage; table look-ups avoid exact ties.', 'DESIGN.md#C20')
 
+check('C19', 'exploration', 'before/after oracle from the statement on split_pipe, break_pipe and skeletonize: dictionary diff of every other element, geometry along the vertex polyline, length and demand conservation, map partition, and WNTRSimulator results before/after a split',
+      'Random networks with vertices, check valves, minor losses, closed pipes, dead ends, series chains, parallel pipes and controls; every '
+      'pipe/fraction (0, 1, random)/end/return_copy combination is judged for conserved length, untouched other elements and sections, junction '
+      'position/elevation, vertex distribution, no check valve on the new pipe, untouched input; splits are simulated before and after; '
+      'skeletonize is judged for protected elements, total demand at every pattern instant and the skeleton map.',
+      'Hydraulic equality of a split is judged to Newton-convergence tolerance; a minor-loss mechanism test separates the documented minor-loss copy from other causes.', 'DESIGN.md#C19')
+
 NOT_YET = 'monitor not built yet in this commit (planned in DESIGN.md section 4)'
 ALL = ['C%02d' % i for i in range(1, 21)]
 
